@@ -30,6 +30,7 @@ var evalCtx = &hcl.EvalContext{
 			"a": cty.ObjectVal(map[string]cty.Value{"b": cty.StringVal("B")}),
 			"c": cty.NumberIntVal(1),
 		}),
+		"l3": cty.TupleVal([]cty.Value{cty.TupleVal([]cty.Value{cty.StringVal("p")}), cty.TupleVal([]cty.Value{cty.StringVal("q")})}),
 		"l2": cty.TupleVal([]cty.Value{
 			cty.ObjectVal(map[string]cty.Value{"a": cty.TupleVal([]cty.Value{cty.StringVal("p")})}),
 			cty.ObjectVal(map[string]cty.Value{"a": cty.TupleVal([]cty.Value{cty.StringVal("q")})}),
